@@ -113,6 +113,7 @@ type Explorer struct {
 	ShardDepth     int
 	TrivialAsserts int
 	noShare        bool
+	MonTotals      map[string]int
 	UninitGlobals  map[string]int
 	stubLog        []value
 	RootPrefix     []Decision
@@ -129,7 +130,7 @@ type Explorer struct {
 
 func NewExplorer(s *Solver) *Explorer {
 	return &Explorer{S: s, noShare: os.Getenv("SYMX_NOSHARE") != "", MaxSteps: 3000000, MaxDepth: 400, MaxPaths: 200000,
-		FnsTouched: map[string]int{}, Params: map[string]string{}, UninitGlobals: map[string]int{}}
+		FnsTouched: map[string]int{}, Params: map[string]string{}, UninitGlobals: map[string]int{}, MonTotals: map[string]int{}}
 }
 
 func (e *Explorer) beginPath(prefix []Decision) {
